@@ -4,3 +4,78 @@ use super::*;
 
 #[cfg(test)]
 include!("/verif/.build/playback/branch_node.inc");
+
+// ---- BranchNodeBuilder::push_chunk across prefix lengths: bounded native enumeration ---------------
+// push_chunk copies prefix-compressed separators from a base node into a node with another prefix
+// length: the separators gain (prefix extension) or lose leading bits, bit-shifted into place by
+// bitwise_memcpy.  Kani group k6_memcpy proves bitwise_memcpy under a precondition on its source
+// slice; whether push_chunk's arithmetic meets it for every pair of prefix lengths is enumerated here
+// (defect 11 was exactly such a pair: 62 carried bits starting at bit 3 of their first byte).
+#[cfg(test)]
+fn native_pattern_key(shared_bits: usize, tail: u8) -> Key {
+    use bitvec::prelude::*;
+    let mut k = [0xA5u8; 32];
+    // behind the shared pattern: zeros, then the distinguishing tail in the last byte
+    for i in shared_bits..256 { k.view_bits_mut::<Msb0>().set(i, false); }
+    k[31] = tail;
+    k
+}
+
+/// Bounded native enumeration (not a proof): four keys sharing at least 248 leading bits (pattern
+/// 1010 0101.. then zeros, so that a lost or misplaced bit shows), the first one either as long as the
+/// others or ending after 150 bits (trailing-zero compression: its separator can be shorter than the
+/// stored prefix); a base node
+/// storing a prefix of P bits, a new node storing Q bits, for every P, Q in 0..=200; the chunk copied
+/// as a whole, behind a pushed separator, or from the middle; the destination page pre-filled with
+/// ones.  Every separator and page number read back from the new node is the original one.
+#[cfg(test)]
+#[test]
+fn native_enum_push_chunk_reprefixes_exactly() {
+    use crate::beatree::ops::bit_ops::separator_len;
+    let pool = crate::io::PagePool::new();
+    let mut cases = 0usize;
+    for short_first in [false, true] {
+        let mut keys: Vec<Key> = Vec::new();
+        let shared = if short_first { 150 } else { 200 };
+        keys.push(native_pattern_key(shared, if short_first { 0 } else { 1 }));
+        for t in 2..5u8 { keys.push(native_pattern_key(shared, t * 16 + 1)); }
+        if short_first { assert!(separator_len(&keys[0]) == 150); }
+        assert!(keys.windows(2).all(|w| w[0] < w[1]));
+        for p in 0..=200usize {
+            let mut b = BranchNodeBuilder::new(BranchNode::new_in(&pool), keys.len(), keys.len(), p);
+            for (i, k) in keys.iter().enumerate() { b.push(*k, separator_len(k), 500 + i as u32); }
+            let base = b.finish();
+            for (i, k) in keys.iter().enumerate() {
+                assert!(get_key(&base, i) == *k, "base node (prefix {}) does not read back key {}", p, i);
+            }
+            for q in 0..=200usize {
+                for variant in 0..3 {
+                    let mut page = BranchNode::new_in(&pool);
+                    page.as_mut_slice().fill(0xFF);
+                    let (from, to) = match variant { 0 => (0, 4), 1 => (1, 4), _ => (1, 3) };
+                    let n = if variant == 2 { 3 } else { 4 };
+                    let mut nb = BranchNodeBuilder::new(page, n, n, q);
+                    if variant == 1 { nb.push(keys[0], separator_len(&keys[0]), 500); }
+                    nb.push_chunk(&base, from, to, std::iter::empty());
+                    if variant == 2 { nb.push(keys[3], separator_len(&keys[3]), 503); }
+                    let node = nb.finish();
+                    let first = if variant == 2 { 1 } else { 0 };
+                    for j in 0..n {
+                        let want = keys[first + j];
+                        let got = get_key(&node, j);
+                        assert!(got == want, "push_chunk {}..{} from a base with a {}-bit prefix into a node with a {}-bit prefix (variant {}, short first key {}): separator {} reads back {:02x?}, expected {:02x?}",
+                            from, to, p, q, variant, short_first, j, &got[..], &want[..]);
+                        assert!(node.node_pointer(j) == 500 + (first + j) as u32, "page number of separator {} lost", j);
+                    }
+                    cases += 1;
+                }
+            }
+        }
+    }
+    assert!(cases == 2 * 201 * 201 * 3);
+}
+
+// (A Kani harness running push_chunk with bitwise_memcpy replaced by a stub that asserts its
+// precondition - symbolic prefix lengths and separator lengths, two separators - was tried: CBMC runs
+// out of memory in propositional reduction, twice, after 7 and 14 minutes; symbolic offsets into the
+// 4 KiB page.  The enumeration above is the stand-in.)
